@@ -1,6 +1,7 @@
 import LenaModel.Lemmas.C04
 import LenaModel.Lemmas.C04Alone
 import LenaModel.Lemmas.C04Local
+import LenaModel.Lemmas.C04Fill
 /-! # C04 — context non-interference between `Split` branches and across accumulators
 
 The property (properties.jsonl, C04) has two sentences.
@@ -8,19 +9,25 @@ The property (properties.jsonl, C04) has two sentences.
 1. *With `copy_buf=True` each Split or Zip branch computes what it would compute alone on a private deep
    copy of the flow: no mutation of data or context performed in one branch is visible in another, whether
    the Split is driven by run, fill or request.*
-   `split_tokens_disjoint`, `fill_tokens_disjoint`, `zip_tokens_disjoint`: the objects handed to different
+   (a) `split_tokens_disjoint`, `fill_tokens_disjoint`, `zip_tokens_disjoint`: the objects handed to different
    branches (and to the same branch at different times) are pairwise different, and every copy consists of
    objects that did not exist before.
+   (b) `branch_alone_equiv` (`Split.run`), `split_fill_alone_equiv` (`Split._fill`), `zip_fill_alone_equiv`
+   (`Zip._fill`): under locality of mutation (`Local`), the events of every branch inside the `Split`/`Zip` are
+   exactly the events of that branch run alone on private deep copies (or, for the last active branch, on the
+   original values).  `harness_branches_local` proves `Local` for every branch of the executable model, so
+   `harness_branch_alone_equiv` holds without any locality hypothesis.
 
 2. *Every context yielded by a framework accumulator's compute() or request() shares no mutable object with
    the context of any value that was filled nor with a context it yielded earlier.*
    `acc_yield_fresh` (generic in the accumulator) with `accOps_freshYield` (every modelled accumulator except
    `StoreFilled` and the user elements that yield what was filled, whose documented result *is* the filled
-   values — `store_yields_filled`). -/
+   values — `store_yields_filled`); `split_compute_fresh` for the common-type `Split._compute`/`_request`. -/
 
 namespace Lena.C04
 
 open Lena.C03 (Kind readBlock blocks)
+open Lena.Flow (Value)
 
 variable {σ S C : Type}
 
@@ -199,6 +206,135 @@ theorem branch_alone_equiv (s : Split σ S C) (hv : s.bufsize ≠ some 0) (hc : 
       refine Or.inr (passes_nosource (blocks s.bufsize flow) s.branches { st := st0, cc := 0 } (by simp [hbl]) b' hb')
 
 
+/-- **… whether the Split is driven by run, fill or request: `Split._fill`** (`copy_buf=True`; used by
+`fill`+`compute` and by `fill`+`request`).  Filling an alias-free flow value by value (the caller stops at the
+first `LenaStopFill`), under the hypotheses of `branch_alone_equiv`: for every branch `b` there is a schedule —
+for a prefix of the flow, what `b` was handed for each value: a deep copy made of objects created for `b`, or the
+value itself (`FillOK`) — such that the events of `b` (what it was handed, every `fill` and its outcome) are
+exactly those of `b` filled alone (`aloneFillLife`: every copy holds what the value held at the start). -/
+theorem split_fill_alone_equiv (brs : List (Branch σ S C)) (w : World C) (flow : List (Item S))
+    (hup : ∀ t ∈ cellsOf flow, t.1 = upNs) (hnd : (cellsOf flow).Nodup)
+    (hids : (brs.map (·.id)).Nodup) (hloc : ∀ b ∈ brs, Local b.ops (ownNs b.id))
+    (hrefs : ∀ b ∈ brs, ∀ t ∈ b.ops.refs b.st, t.1 = ownNs b.id) (b : Branch σ S C) (hb : b ∈ brs) :
+    ∃ sched : List (Item S × Item S × Bool),
+      sched.map (·.1) = flow.take sched.length ∧ (∀ e ∈ sched, FillOK b.id e) ∧
+      proj b.id (fillFlow (splitFill true) w brs flow).evs = (aloneFillLife w.st w.st b sched).1 := by
+  rw [fillFlow_congr (splitFill true) (fillG true) (fun x w brs => splitFill_eq x brs w)]
+  exact fillG_alone true brs w flow hup hnd hids hloc hrefs b hb
+
+/-- **`Zip._fill`**: the same for the branches of a `Zip`, each of which is handed a deep copy of every value. -/
+theorem zip_fill_alone_equiv (brs : List (Branch σ S C)) (w : World C) (flow : List (Item S))
+    (hup : ∀ t ∈ cellsOf flow, t.1 = upNs) (hnd : (cellsOf flow).Nodup)
+    (hids : (brs.map (·.id)).Nodup) (hloc : ∀ b ∈ brs, Local b.ops (ownNs b.id))
+    (hrefs : ∀ b ∈ brs, ∀ t ∈ b.ops.refs b.st, t.1 = ownNs b.id) (b : Branch σ S C) (hb : b ∈ brs) :
+    ∃ sched : List (Item S × Item S × Bool),
+      sched.map (·.1) = flow.take sched.length ∧ (∀ e ∈ sched, FillOK b.id e) ∧
+      proj b.id (fillFlow zipFill w brs flow).evs = (aloneFillLife w.st w.st b sched).1 := by
+  rw [fillFlow_congr zipFill (fillG false) (fun x w brs => zipFill_eq x brs w)]
+  exact fillG_alone false brs w flow hup hnd hids hloc hrefs b hb
+
+/-- **Every branch of the executable model is local**: the hypothesis `Local` of `branch_alone_equiv` holds for
+every harness branch, whatever its elements and its accumulator (re-export of `hOps_local`). -/
+theorem harness_branches_local (ns : Nat) (sp : BSpec) : Local (hOps ns sp) ns := hOps_local ns sp
+
+theorem mkBranches_spec : ∀ (specs : List BSpec) (start : Nat),
+    (∀ b ∈ mkBranches start specs, start ≤ b.id ∧ b.st = {} ∧ ∃ sp ∈ specs, b.ops = hOps (ownNs b.id) sp) ∧
+    ((mkBranches start specs).map (·.id)).Nodup := by
+  intro specs
+  induction specs with
+  | nil => intro start; simp [mkBranches]
+  | cons sp rest ih =>
+    intro start
+    obtain ⟨i1, i2⟩ := ih (start + 1)
+    refine ⟨?_, ?_⟩
+    · intro b hb
+      simp only [mkBranches, List.mem_cons] at hb
+      rcases hb with rfl | hb
+      · exact ⟨Nat.le_refl _, rfl, sp, List.mem_cons_self .., rfl⟩
+      · obtain ⟨a1, a2, sp', hsp', a3⟩ := i1 b hb
+        exact ⟨by omega, a2, sp', List.mem_cons_of_mem _ hsp', a3⟩
+    · simp only [mkBranches, List.map_cons, List.nodup_cons]
+      refine ⟨?_, i2⟩
+      intro hmem
+      simp only [List.mem_map] at hmem
+      obtain ⟨b, hb, hid⟩ := hmem
+      have := (i1 b hb).1
+      omega
+
+/-- **The branches of the executable model compute what they would compute alone.**  `branch_alone_equiv`
+instantiated with the branches of a harness case (any list of branch specifications: sources, fill/compute,
+fill/request and plain sequences built from `Variable`, `UpdateContext`, `MakeFilename`, `Count`, `Slice`, the
+user mutators and any accumulator): the locality hypothesis is discharged by `hOps_local`. -/
+theorem harness_branch_alone_equiv (specs : List BSpec) (bufsize : Option Nat) (hv : bufsize ≠ some 0)
+    (st0 : Store Value) (flow : List HItem)
+    (hup : ∀ t ∈ cellsOf flow, t.1 = upNs) (hnd : (cellsOf flow).Nodup)
+    (b : Branch HSt Skel Value) (hb : b ∈ mkBranches 0 specs) :
+    ∃ sched : List (List HItem × List HItem × Bool),
+      sched.map (·.1) = (blocks bufsize flow).take sched.length ∧ (∀ e ∈ sched, SchedOK b.id e) ∧
+      proj b.id ((Split.runTrace { branches := mkBranches 0 specs, bufsize := bufsize, copyBuf := true } st0 flow).1) =
+        aloneTrace st0 b sched (blocks bufsize flow).isEmpty := by
+  obtain ⟨h1, h2⟩ := mkBranches_spec specs 0
+  refine branch_alone_equiv { branches := mkBranches 0 specs, bufsize := bufsize, copyBuf := true } hv rfl st0 flow
+    hup hnd h2 ?_ ?_ b hb
+  · intro b' hb'
+    obtain ⟨_, _, sp, _, hops⟩ := h1 b' hb'
+    rw [hops]
+    exact hOps_local _ _
+  · intro b' hb' t ht
+    obtain ⟨_, hst, sp, _, hops⟩ := h1 b' hb'
+    rw [hops, hst] at ht
+    simp [hOps, AccSt.refs, cellsOf] at ht
+
+
+/-! ## non-vacuity: a concrete instance of every hypothesis -/
+
+/-- three branches that mutate the context in place, the first stopped by `Slice(1)` in the middle of a buffer -/
+def demoSpecs : List BSpec :=
+  [ { kind := .fillCompute, steps := [.tag "a", .var "x", .stop 1], term := .sum, srcN := 0 },
+    { kind := .fillCompute, steps := [.tag "b"], term := .store, srcN := 0 },
+    { kind := .sequence, steps := [.upd "k" 1, .count "c"], term := .store, srcN := 0 } ]
+
+/-- a flow of three values, each with its own context object -/
+def demoFlow : List HItem :=
+  [mkItem (.int 0) (some (upNs, 0)), mkItem (.int 1) (some (upNs, 1)), mkItem (.int 2) (some (upNs, 2))]
+
+def demoSplit (bufsize : Option Nat) : Split HSt Skel Value :=
+  { branches := mkBranches 0 demoSpecs, bufsize := bufsize, copyBuf := true }
+
+/-- the hypotheses of `split_tokens_disjoint` and `branch_alone_equiv` hold for the demo, and in the run with
+`bufsize=2` the objects handed to the branches are: copies `(3, ·)`, `(5, ·)` for branches 0 and 1, the
+originals `(0, ·)` for the last branch; after branch 0 was dropped, in the second block branch 1 gets a copy
+and branch 2 the original -/
+example :
+    (∀ t ∈ cellsOf demoFlow, t.1 = upNs) ∧ (cellsOf demoFlow).Nodup ∧
+    (((demoSplit (some 2)).runTrace (fun _ => .dict []) demoFlow).1.map handCells).filter (· ≠ []) =
+      [[(3, 0), (3, 1)], [(5, 2), (5, 3)], [(0, 0), (0, 1)], [(5, 4)], [(0, 2)]] := by
+  decide
+
+example : ∀ b ∈ (demoSplit (some 2)).branches, ∃ sched : List (List HItem × List HItem × Bool),
+    sched.map (·.1) = (blocks (some 2) demoFlow).take sched.length ∧ (∀ e ∈ sched, SchedOK b.id e) ∧
+    proj b.id ((demoSplit (some 2)).runTrace (fun _ => .dict []) demoFlow).1 =
+      aloneTrace (fun _ => .dict []) b sched (blocks (some 2) demoFlow).isEmpty :=
+  fun b hb => harness_branch_alone_equiv demoSpecs (some 2) (by decide) _ demoFlow (by decide) (by decide) b hb
+
+
+
+/-- the hypotheses of `split_fill_alone_equiv` / `zip_fill_alone_equiv` hold for the two fill/compute branches
+of the demo -/
+example : ∀ b ∈ mkBranches 0 (demoSpecs.take 2), ∃ sched : List (HItem × HItem × Bool),
+    sched.map (·.1) = demoFlow.take sched.length ∧ (∀ e ∈ sched, FillOK b.id e) ∧
+    proj b.id (fillFlow (splitFill true) { st := fun _ => .dict [], cc := 0 } (mkBranches 0 (demoSpecs.take 2)) demoFlow).evs =
+      (aloneFillLife (fun _ => .dict []) (fun _ => .dict []) b sched).1 := by
+  obtain ⟨h1, h2⟩ := mkBranches_spec (demoSpecs.take 2) 0
+  refine fun b hb => split_fill_alone_equiv _ _ demoFlow (by decide) (by decide) h2 ?_ ?_ b hb
+  · intro b' hb'
+    obtain ⟨_, _, sp, _, hops⟩ := h1 b' hb'
+    rw [hops]; exact hOps_local _ _
+  · intro b' hb' t ht
+    obtain ⟨_, hst, sp, _, hops⟩ := h1 b' hb'
+    rw [hops, hst] at ht
+    simp [hOps, AccSt.refs, cellsOf] at ht
+
 /-! ## sentence 2: what an accumulator yields is new -/
 
 /-- every modelled framework accumulator (`Sum`, `DSum`, `Count`, `Mean` with and without `sum_seq`,
@@ -239,6 +375,81 @@ example :
     (runHist ops (fun s : HSt => s.ctr) (fun _ => .dict []) {} h).map (fun e => cellsOf e.resp.outs)
       = [[], [], [(2, 0)], [(2, 1)]] := by
   decide
+
+/-- non-vacuity of `acc_yield_fresh`: `Mean(Split([Sum(), Count("n")]))` (two values per `compute()`), filled with
+two upstream values, computed, the first result mutated in place, computed again, and then filled with its own
+first result: all hypotheses hold -/
+example :
+    let ops := accOps (ownNs 0) (.mean (some (.sumCount "n")) false)
+    let x : HItem := mkItem (.int 1) (some (upNs, 0))
+    let y : HItem := mkItem (.int 3) (some (upNs, 1))
+    let z : HItem := mkItem (.int 2) (some (ownNs 0, 0))
+    let h : List (HOp Skel Value) :=
+      [.req (.fill x), .req (.fill y), .req .compute,
+       .ext (fun st => st.set (ownNs 0, 0) (.dict [("output", .str "f")])), .req .compute, .req (.fill z)]
+    (∀ r, HOp.req r ∈ h → r.isAcc = true) ∧
+    (∀ e ∈ runHist ops (fun s : HSt => s.ctr) (fun _ => .dict [("k", .int 1)]) {} h,
+      ∀ t ∈ e.req.cells, t.1 = ownNs 0 → t.2 < e.ctr) ∧
+    (runHist ops (fun s : HSt => s.ctr) (fun _ => .dict [("k", .int 1)]) {} h).map (fun e => cellsOf e.resp.outs)
+      = [[], [], [(2, 0), (2, 1)], [(2, 2), (2, 3)], []] := by
+  refine ⟨?_, by decide, by decide⟩
+  intro r hr
+  simp only [List.mem_cons, HOp.req.injEq, List.not_mem_nil, or_false, reduceCtorEq, false_or] at hr
+  rcases hr with rfl | rfl | rfl | rfl | rfl <;> rfl
+
+theorem outputs_append (l₁ l₂ : List (Ev S C)) : outputs (l₁ ++ l₂) = outputs l₁ ++ outputs l₂ := by
+  induction l₁ with
+  | nil => rfl
+  | cons e l ih => cases e <;> simp [outputs, ih]
+
+theorem outputs_outsEv (i : Nat) (st : Store C) (vals : List (Item S)) : outputs (outsEv i st vals : List (Ev S C)) = vals := by
+  induction vals with
+  | nil => rfl
+  | cons v vs ih => simp only [outsEv, List.map_cons, outputs] at ih ⊢; rw [ih]
+
+/-- **`Split._compute` / `Split._request`** (the common-type methods): what a `Split` of accumulators yields is
+what its branches yield, in turn; if every branch allocates what it yields (`FreshYield`, in its own namespace),
+then all objects of all values yielded by one `compute()` are pairwise different and new — each belongs to the
+namespace of the branch that yielded it and was allocated during this very call. -/
+theorem split_compute_fresh (req : Req S) (hreq : req.isAcc = true) (mkEv : Nat → Ev S C)
+    (hev : ∀ i, outputs [mkEv i] = []) (ctr : σ → Nat) :
+    ∀ (brs : List (Branch σ S C)) (st : Store C),
+      (∀ b ∈ brs, FreshYield b.ops (ownNs b.id) ctr) → (brs.map (·.id)).Nodup →
+      (cellsOf (outputs (collect req mkEv st brs).1)).Nodup ∧
+      ∀ t ∈ cellsOf (outputs (collect req mkEv st brs).1), ∃ b ∈ brs, t.1 = ownNs b.id ∧ ctr b.st ≤ t.2 := by
+  intro brs
+  induction brs with
+  | nil => intro st _ _; simp [collect, outputs, cellsOf]
+  | cons b rest ih =>
+    intro st hF hnd
+    rw [List.map_cons, List.nodup_cons] at hnd
+    have hb := hF b (List.mem_cons_self ..)
+    obtain ⟨i1, i2⟩ := ih (b.ops.act st b.st req).1 (fun b' hb' => hF b' (List.mem_cons_of_mem _ hb')) hnd.2
+    have hout : outputs (collect req mkEv st (b :: rest)).1 =
+        (b.ops.act st b.st req).2.2.outs ++ outputs (collect req mkEv (b.ops.act st b.st req).1 rest).1 := by
+      simp only [collect]
+      rw [show mkEv b.id :: outsEv b.id (b.ops.act st b.st req).1 (b.ops.act st b.st req).2.2.outs ++
+            (collect req mkEv (b.ops.act st b.st req).1 rest).1 =
+          [mkEv b.id] ++ (outsEv b.id (b.ops.act st b.st req).1 (b.ops.act st b.st req).2.2.outs ++
+            (collect req mkEv (b.ops.act st b.st req).1 rest).1) from rfl,
+        outputs_append, outputs_append, hev, outputs_outsEv]
+      rfl
+    rw [hout, cellsOf_append]
+    refine ⟨?_, ?_⟩
+    · rw [List.nodup_append]
+      refine ⟨hb.nodup st b.st req hreq, i1, ?_⟩
+      intro t ht t' ht' heq
+      subst heq
+      obtain ⟨b', hb', hns, _⟩ := i2 t ht'
+      have h1 := (hb.fresh st b.st req hreq t ht).1
+      have : b.id = b'.id := ((ns_facts b.id b'.id).1).mp (by rw [← h1, hns])
+      exact hnd.1 (by rw [this]; exact List.mem_map_of_mem hb')
+    · intro t ht
+      rcases List.mem_append.mp ht with ht | ht
+      · obtain ⟨g1, g2, _⟩ := hb.fresh st b.st req hreq t ht
+        exact ⟨b, List.mem_cons_self .., g1, g2⟩
+      · obtain ⟨b', hb', h⟩ := i2 t ht
+        exact ⟨b', List.mem_cons_of_mem _ hb', h⟩
 
 /-- `StoreFilled` is outside the second sentence: its documented result *is* the filled values, and the model
 shows it — the yielded value is the very object that was filled -/
